@@ -150,6 +150,19 @@ class HostCase:
             asyncio.set_event_loop(self.loop)
             self.mgr = PM.make_async_manager(self.chan)
         else:
+            # locks the manager creates notice a thread that acquires one it
+            # already holds (the listener would hang for ever, silently)
+            import socketio.base_manager
+            import socketio.base_server
+            import socketio.manager
+            import socketio.pubsub_manager
+            import socketio.server
+            from vlib import sched as SCH
+            self._undo_locks = SCH.patch_module_detect_locks([
+                socketio.base_manager, socketio.manager,
+                socketio.pubsub_manager, socketio.base_server,
+                socketio.server])
+            del SCH.DetectLock.found[:]
             self.mgr = PM.make_sync_manager(self.chan)
         self.cfg = S.default_config(kind=kind, served=['/', '/a'],
                                     async_handlers=False,
@@ -435,6 +448,82 @@ class HostCase:
             return
         ctx.case((self.kind, 'raising_callback', how), {'how': how})
 
+    def step_reentrant_callback(self):
+        """The application's callback, run by the listener for a relayed
+        acknowledgement, uses the server again: it emits with a callback of
+        its own and disconnects a client.  The listener must come out of it
+        and go on with the channel."""
+        rng, r, ctx = self.rng, self.r, self.ctx
+        from vlib import sched as SCH
+        if not r.issued:
+            return
+        (T, ns), lst = rng.choice(sorted(r.issued.items()))
+        sid = lst[-1]
+        fired = []
+        what = rng.choice(['emit_cb', 'emit_cb', 'emit', 'enter_room'])
+
+        def again(*a):
+            fired.append(a)
+            if what == 'emit_cb':
+                return r.sio.emit('again', {'x': 2}, to=sid, namespace=ns,
+                                  callback=lambda *b: None)
+            if what == 'emit':
+                return r.sio.emit('again', {'x': 2}, namespace=ns)
+            return r.sio.enter_room(sid, 'from-callback', namespace=ns)
+        if r.d.is_async:
+            async def cb(*a):
+                x = again(*a)
+                if asyncio.iscoroutine(x):
+                    await x
+        else:
+            cb = again
+        for t in r.T.values():
+            t.drain()
+        r.d.clear_errors()
+        self.history.append(['reentrant_callback', what])
+        try:
+            r.d.api('emit', 'needs_ack', {'x': 1}, to=sid, namespace=ns,
+                    callback=cb)
+        except Exception as e:
+            return self.fail('emit with callback raised %r' % e)
+        pk = [p for p in r.T[T].drain()
+              if p['type'] in (R.EVENT, R.BINARY_EVENT)]
+        if len(pk) != 1 or pk[0]['id'] is None:
+            return self.fail('emit with callback sent %r' % pk)
+        self.push(pickle.dumps({
+            'method': 'callback', 'host_id': self.mgr.host_id, 'sid': sid,
+            'namespace': ns, 'id': pk[0]['id'], 'args': ['x']}))
+        ctx.count('callbacks_that_use_the_server_again')
+        if SCH.DetectLock.found:
+            tb = SCH.DetectLock.found[0]
+            del SCH.DetectLock.found[:]
+            return self.fail('the application callback of a relayed '
+                             'acknowledgement used the server again (%s) '
+                             'and the listener thread tried to acquire a '
+                             'lock it already held: it would block for ever '
+                             'and never process another message' % what,
+                             {'stack': tb[-1500:]})
+        if len(fired) != 1:
+            return self.fail('callback message for this host invoked the '
+                             'callback %d times' % len(fired))
+        if self.listener_dead:
+            return self.fail('the listener stopped after a callback that '
+                             'used the server again (%s)' % what)
+        # (the injected listen failures of this case are logged whenever the
+        # listener gets round to them: not this step's business)
+        errs = [e for e in r.d.errors()
+                if 'injected' not in (e.get('tb') or '') and
+                'injected' not in (e.get('msg') or '')]
+        if errs:
+            return self.fail('a callback that used the server again (%s): '
+                             'exception (%s)' % (what, errs[0].get('exc')),
+                             {'error': {k: str(v)[-800:]
+                                        for k, v in errs[0].items()}})
+        if not self.sentinel('after a callback that used the server again '
+                             '(%s)' % what):
+            return
+        ctx.case((self.kind, 'reentrant_callback', what), None)
+
     def step_remote_callbacks(self):
         """Emits with callbacks to a client that is connected to another
         server.  The acknowledgement comes back as a channel message that
@@ -634,6 +723,11 @@ class HostCase:
                     return
                 continue
             if self.rng.random() < 0.05:
+                self.step_reentrant_callback()
+                if self.failed:
+                    return
+                continue
+            if self.rng.random() < 0.05:
                 self.step_remote_callbacks()
                 if self.failed:
                     return
@@ -657,6 +751,10 @@ class HostCase:
         self.final()
 
     def close(self):
+        undo = getattr(self, '_undo_locks', None)
+        if undo:
+            undo()
+            self._undo_locks = None
         try:
             if self.kind == 'sync':
                 self.mgr.stop()
@@ -949,6 +1047,7 @@ def run(ctx):
     ctx.require('listen_restarts', 5)
     ctx.require('redis_cases', 20)
     ctx.require('remote_callback_ids_checked', 10)
+    ctx.require('callbacks_that_use_the_server_again', 10)
     ctx.require('callback_messages_not_naming_this_server', 20)
     k = 0
     j = 0
